@@ -22,6 +22,7 @@ Shapes_render_object == {"annotationsStr", "celAnnotBad", "celAnnotNonBool", "la
 Shapes_template_include == {"finiteDepth", "mutualRecursion", "recurseAfterLeaf", "recurseTwice", "selfRecursion"}
 Shapes_template_output == {"badTemplate", "emptyOutput", "noKind", "noName", "notAMap", "notYAML", "scalar"}
 Shapes_template_source_item == {"destClash", "destDotOnly", "destNested", "destNoDot", "emptyDest", "emptyKey", "keyBadJSONPath", "keyBraces", "keyMissing", "keyNoDot", "valid"}
+Shapes_template_source_patch == {"patchAccepted", "patchRejected"}
 Shapes_template_target_status == {"absent", "condIntValues", "condNoReason", "condNoStatus", "condNoType", "condNotAMap", "condNull", "condOGString", "condsNotAList", "curIntValues", "curNoMessage", "curNoReason", "curNoStatus", "curNoType", "nestedDeep", "notAMap", "ogFloat", "ogString", "wellFormed"}
 
 Rows == { <<"cli-tree-condmap", s>> : s \in Shapes_cli_tree_condmap } \cup
@@ -33,6 +34,7 @@ Rows == { <<"cli-tree-condmap", s>> : s \in Shapes_cli_tree_condmap } \cup
         { <<"oci-import", s>> : s \in Shapes_oci_import } \cup
         { <<"render-include", s>> : s \in Shapes_render_include } \cup
         { <<"template-include", s>> : s \in Shapes_template_include } \cup
+        { <<"template-source-patch", s>> : s \in Shapes_template_source_patch } \cup
         { <<"render-condmap", s>> : s \in Shapes_render_condmap } \cup
         { <<"render-manifest", s>> : s \in Shapes_render_manifest } \cup
         { <<"render-object", s>> : s \in Shapes_render_object } \cup
